@@ -53,7 +53,9 @@ def run_variant(v):
             return v, 'stale', err, ''
         evid = os.path.join(tmp, 'evidence')
         env = dict(os.environ, AM_REPO=dst, AM_EVID=evid, AM_CACHE=os.path.join(tmp, 'cache'), AM_NO_WITNESS='1', AM_NO_SELFTEST='1')
-        p = subprocess.run([os.path.join(VERIF, 'check'), v['prop'], '--tier', 'quick'], env=env,
+        # a behaviour-preserving variant must keep EVERY property silent, a break variant only needs its own check
+        target = 'all' if v['expect'] == 'silent' else v['prop']
+        p = subprocess.run([os.path.join(VERIF, 'check'), target, '--tier', 'quick'], env=env,
                            stdout=subprocess.PIPE, stderr=subprocess.STDOUT, text=True, cwd=VERIF)
         out = p.stdout
         fired = []
